@@ -70,7 +70,10 @@ def check_vc(pc, goal, timeout_ms=None, want_model=True, use_cvc5=True) -> VCRes
             return VCResult("refuted", "bounded-instantiation", time.time() - t0, model=None, reason=why)
     if use_cvc5:
         try:
-            smt2 = s.to_smt2()
+            s_orig = z3.Solver()          # print the ORIGINAL assertions: after check() z3 prints internal symbols (seq.nth_i) cvc5 cannot parse
+            s_orig.add(*pc)
+            s_orig.add(z3.Not(goal))
+            smt2 = s_orig.to_smt2()
             smt2 = "\n".join(l for l in smt2.splitlines() if not l.startswith("(check-sat)") and not l.startswith("(set-info") and not l.startswith("; benchmark"))
             t1 = time.time()
             r2 = _cvc5(smt2, timeout_ms / 1000.0)
